@@ -178,12 +178,19 @@ func condChecksNonNil(info *types.Info, cond ast.Expr, errObj types.Object) (che
 		}
 		if c.Op == token.LOR {
 			// err != nil || other: the branch is taken at least whenever the error is non-nil, and
-			// the error is nil after it — but the branch is also taken without an error, and what
-			// it returns then (a nil error with no result) is not what the caller asked for: the
-			// test is there, it is not exact
-			a, _ := condChecksNonNil(info, c.X, errObj)
-			b, _ := condChecksNonNil(info, c.Y, errObj)
-			return a || b, false
+			// the error is nil after it
+			// (`err != nil || path == ""`, returning the zero result for both, is common)
+			for _, side := range []ast.Expr{c.X, c.Y} {
+				if tv, ok := info.Types[ast.Unparen(side)]; ok && tv.Value != nil {
+					return false, false // a constant operand: the test decides nothing
+				}
+			}
+			if _, exact := condChecksNonNil(info, c.X, errObj); exact {
+				return true, true
+			}
+			if _, exact := condChecksNonNil(info, c.Y, errObj); exact {
+				return true, true
+			}
 		}
 	}
 	return false, false
